@@ -1,6 +1,7 @@
 package formatter
 
 import (
+	"regexp"
 	"strings"
 	"unicode"
 	"unicode/utf8"
@@ -93,30 +94,32 @@ func FormatDocumentWithOptions(journal *ast.Journal, content string, commodityFo
 	return edits
 }
 
-// losesText reports whether rewriting a line as formatted would drop characters
-// other than blanks, quotes and number spellings (which formatting may change).
+// numberSpelling matches a number as the lexer accepts it (digit groups, marks,
+// exponent); formatting may respell numbers, so they are compared by count only.
+var numberSpelling = regexp.MustCompile(`[0-9][0-9.,]*(?: [0-9][0-9.,]*)*(?:[eE][+-]?[0-9]+)?`)
+
+// losesText reports whether rewriting a line as formatted would drop anything
+// but blanks and an explicit plus sign: every other character must survive,
+// and there must be as many numbers as before (their spelling may change).
 func losesText(original, formatted string) bool {
-	count := func(s string) map[rune]int {
+	count := func(s string) (map[rune]int, int) {
+		numbers := len(numberSpelling.FindAllString(s, -1))
+		s = numberSpelling.ReplaceAllString(s, "")
 		counts := make(map[rune]int)
-		runes := []rune(s)
-		for i, r := range runes {
-			switch {
-			case r == ' ' || r == '\t' || r == '\r' || r == '"' || r == '+' || r == '.' || r == ',':
-				continue
-			case unicode.IsDigit(r):
-				continue
-			case (r == 'e' || r == 'E') && i > 0 && unicode.IsDigit(runes[i-1]) &&
-				i+1 < len(runes) && (unicode.IsDigit(runes[i+1]) || runes[i+1] == '+' || runes[i+1] == '-'):
-				continue // exponent of a number
-			case r == '-' && i > 0 && (runes[i-1] == 'e' || runes[i-1] == 'E'):
+		for _, r := range s {
+			if r == ' ' || r == '\t' || r == '\r' || r == '+' {
 				continue
 			}
 			counts[r]++
 		}
-		return counts
+		return counts, numbers
 	}
-	after := count(formatted)
-	for r, n := range count(original) {
+	before, numbersBefore := count(original)
+	after, numbersAfter := count(formatted)
+	if numbersAfter < numbersBefore {
+		return true
+	}
+	for r, n := range before {
 		if after[r] < n {
 			return true
 		}
